@@ -94,13 +94,39 @@ def gen_case(rng, frontend=None):
             per_chunk = per_chunk[:pos] + [[]] + per_chunk[pos:]
             if glued is not None and pos <= glued:
                 glued += 1
+    if (not single and len(units) >= 2 and all(0 <= u <= 247 for u in hosted) and 0 not in hosted and glued is None
+            and framer != 'tls' and len(chunks) >= 2 and rng.random() < 0.25):
+        # the application swaps a hosted unit for a new one while the server runs (`del context[u]; context[v] = slave`: the
+        # number of units stays what it was), one read for a remaining unit goes by, then requests for the new unit arrive:
+        # they are accepted requests like any other
+        u = rng.choice(hosted)
+        v = rng.choice([x for x in range(1, 248) if x not in hosted])
+        lay = execlib.gen_layout(rng)
+        w = rng.choice([x for x in hosted if x != u])
+        extra, metas = [], []
+        for uid, r in [(w, {'t': 'readHolding', 'address': 0, 'count': 1})] + [(v, execlib.gen_req(rng, lay, [], 0.1)) for _ in range(rng.choice([1, 2, 3]))]:
+            if framer == 'rtu' and 'raw' in r and len(r['raw']) != r.get('byte_count', r.get('write_byte_count')):
+                continue
+            pdu = list(execlib.enc_req(r))
+            tid = rng.randrange(65536)
+            f = serverlib.frame_pdu(framer, pdu, uid, tid)
+            if framer == 'binary' and framelib.has_delim(f):
+                continue
+            extra.append(f)
+            metas.append([{'uid': uid, 'tid': tid, 'fc': pdu[0]}])
+            reqs.append(execlib.strip(r))
+        if extra and metas[0][0]['uid'] == w:
+            pos = rng.randrange(1, len(chunks) + 1)
+            if not any(c is None for c in chunks[pos - 1:pos + 1]):
+                chunks = chunks[:pos] + [{'del': u}, {'add': v, 'layout': lay}] + extra + chunks[pos:]
+                per_chunk = per_chunk[:pos] + [[], []] + metas + per_chunk[pos:]
     return dict(frontend=fe, framer=framer, single=single, units=units, ignore_missing=ignore, broadcast=bcast,
                 chunks=chunks, reqs=reqs, per_chunk=per_chunk)
 
 
-def expect_answer(c, m):
+def expect_answer(c, m, hosted=None):
     """does the property require a response to this request? (True / False / 'either' for gateway exceptions)"""
-    hosted = [u for u, _ in c['units']]
+    hosted = [u for u, _ in c['units']] if hosted is None else hosted
     has_bcast = c['frontend'] not in ('twistedTcp', 'twistedUdp')
     if c['broadcast'] and has_bcast and m['uid'] == 0:
         return False
@@ -111,9 +137,9 @@ def expect_answer(c, m):
     return 'gateway' if not c['ignore_missing'] else False
 
 
-def accepted_by_framer(c, m):
+def accepted_by_framer(c, m, hosted=None):
     """the unit filter of the receive path (frames for units the server does not host are not requests it accepted)"""
-    hosted = [u for u, _ in c['units']]
+    hosted = [u for u, _ in c['units']] if hosted is None else hosted
     if c['single'] or 0 in hosted or 255 in hosted:
         return True
     adds0 = c['broadcast'] and c['frontend'] not in ('twistedTcp', 'twistedUdp')
@@ -131,18 +157,25 @@ def check(ctx, rep, cases, where='server history'):
                  tag='%s:%s' % (c['frontend'], c['framer']))
         rep.sample({'frontend': c['frontend'], 'framer': c['framer'], 'requests': c['reqs'][:3], 'responses_per_chunk': [len(o) for o in outs][:6]}, cap=5)
         serverlib.compare(rep, case, real, a, where + ' vs Server.connStep')
-        if any(escs):
+        if any(e for e, ch in zip(escs, c['chunks']) if not isinstance(ch, dict)):
             rep.violation('an exception escaped the front-end while serving well-formed requests', case, escaped=escs)
             continue
         # the property on the real output
-        for chunk_out, metas in zip(outs, c['per_chunk']):
+        hosted_now = [u for u, _ in c['units']]
+        for chunk_out, metas, chunk in zip(outs, c['per_chunk'], c['chunks']):
+            if isinstance(chunk, dict):
+                if 'add' in chunk:
+                    hosted_now = hosted_now + [chunk['add']]
+                else:
+                    hosted_now = [u for u in hosted_now if u != chunk['del']]
+                continue
             frames = chunk_out
             parsed = serverlib.parse_responses(c['framer'], frames)
             expected = []
             for m in metas:
-                if not accepted_by_framer(c, m):
+                if not accepted_by_framer(c, m, hosted_now):
                     continue
-                e = expect_answer(c, m)
+                e = expect_answer(c, m, hosted_now)
                 if e is True or e == 'gateway':
                     expected.append((m, e))
             ok = len(parsed) == len(expected)
